@@ -311,6 +311,41 @@ def mutators(h, family):
     for (x, y), d in itertools.product((("a", "b"), ("b", "a"), ("c", "c"), ("a", "c"), ("a", "d"), ("b", "d")), (True, False)):
         M.append(ex_unlink(x, y, d))
 
+    def ex_unlink_beside_half_detached(v, l, x, y, destroy):
+        """v.remove_from_link(l) leaves l on its other end with one end only; then unlink(x, y) where x still lists l.  Whether such a
+        link "joins" anything is not specified, so the outcome of the unlink is open - but it is one call: either it raises and the
+        graph is as before, or it completes.  Raising after some of the joining links have already been removed is neither."""
+        def snap(g):
+            out = {}
+            for n, o in g.O.items():
+                for attr in ("links", "vertices", "universes"):
+                    try:
+                        out[(n, attr)] = lab(I.getattr(o, attr))
+                    except (Raised, Unknown):
+                        pass
+            return out
+
+        def do(g):
+            first = h.call(I.getattr(g.obj(v), "remove_from_link"), g.obj(l))
+            if first.kind != "return":
+                return first
+            before = snap(g)
+            out = h.call(f(EX + "unlink"), g.obj(x), g.obj(y), destroy)
+            g.atomicity = None
+            if out.kind == "raise":
+                after = snap(g)
+                diff = [f"{n}.{attr}: {before[(n, attr)]} -> {after.get((n, attr))}" for (n, attr) in before if before[(n, attr)] != after.get((n, attr))]
+                if diff:
+                    g.atomicity = f"explicit.unlink({x}, {y}) raises {out.excname} after it has already changed the graph ({'; '.join(diff)[:300]}): neither the documented effect nor none"
+            return out
+
+        def model(m):
+            struct.m_remove_from_link(m, v, l)
+            return DC
+        return Mut(f"{v}.remove_from_link({l}); explicit.unlink({x}, {y}, destroy={destroy})", "remove_from_link+unlink-beside-a-half-detached-link", Q["unlink"], do, model)
+
+    M += [ex_unlink_beside_half_detached("c", "e_ca", "a", "b", True), ex_unlink_beside_half_detached("c", "e_bc", "b", "a", False), ex_unlink_beside_half_detached("d", "e_da", "a", "b", False)]
+
     # ---- universes
     def u_add(u, v, side):
         def do(g):
@@ -874,6 +909,12 @@ def run_one(h, res, prop, rule, fam, sch, extra_observers, mut_kinds, quick_subs
                 # unspecified outcome: the read-only operations must still leave whatever state there is alone (C13)
                 if prop == "C13":
                     n += frozen(h, g, res, warm + mine, state, (fam, sch, mu), rule)
+                if prop == "C03" and "unlink-beside-a-half-detached-link" in mu.kind:
+                    n += 1
+                    why = getattr(g, "atomicity", None)
+                    res.ob(why is None, sig=(fam, sch, mu.label, "atomic-or-complete"))
+                    if why:
+                        res.violation(rule, mu.qual, f"family={fam},schedule={sch},call={mu.kind}", f"history [{describe(fam, sch, mu)}]: {why}", replay=replay(fam, sch, mu, None))
                 continue
             why = check_result(out, mr, g)
             if why:
